@@ -411,6 +411,22 @@ func init() {
 			st.Counts["rows"]++
 			st.Counts["row_pairs"] += nStarNames
 		}
+		//    characters that are syntax in OTHER glob dialects (? [ ] \ { } ! ^ -) are ordinary bytes here, in names and in
+		//    patterns: one such character at a time next to a letter and the star
+		for ci, ch := range []string{"?", "[", "]", "\\", "{", "}", "!", "^", "-"} {
+			nSpecial := len(c20Names("a"+ch, 3))
+			for i, p := range c20Patterns("a"+ch+"*", 3, 2) {
+				cases = append(cases, Case{ID: fmt.Sprintf("rowglob%d.%d", ci, i), Op: "pathmatchrow",
+					Fields: []string{hx(p), hx("a" + ch), "3"}, Meta: map[string]string{}})
+				st.Counts["rows"]++
+				st.Counts["row_pairs"] += nSpecial
+			}
+		}
+		for i, p := range []string{"a[1].txt", "[ab]", "[a-b]", "a?", "x[*", "back\\slash", "{a,b}", "[!a]", "[^a]"} {
+			cases = append(cases, Case{ID: fmt.Sprintf("rowglobx%d", i), Op: "pathmatchrow",
+				Fields: []string{hx(p), hx("ab1[].?\\{},!^-xt"), "1"}, Meta: map[string]string{}})
+			st.Counts["rows"]++
+		}
 		//    case matters
 		nCaseNames := len(c20Names("aA", 3))
 		for i, p := range c20Patterns("aA*", 3, 3) {
